@@ -197,7 +197,8 @@ pub fn permute_lists(plan: &Plan, rng: &mut Rng) -> (Plan, usize) {
     (p, changed)
 }
 
-const PROFILES: [Profile; 11] = [
+const PROFILES: [Profile; 12] = [
+    Profile::WideStage,
     Profile::SparseWide,
     Profile::Dense,
     Profile::Funnel,
@@ -214,7 +215,7 @@ const PROFILES: [Profile; 11] = [
 pub fn gen_case(rng: &mut Rng) -> (Plan, Profile) {
     let profile = *rng.pick(&PROFILES);
     let mut c = cfg_for(profile, rng);
-    if profile != Profile::Huge {
+    if profile != Profile::Huge && profile != Profile::WideStage {
         c.max_r = c.max_r.max(3);
         c.max_w = c.max_w.max(2);
     }
